@@ -7,7 +7,7 @@ package main
 //	harness gen-go -out <coq/gen> [-src <library source dir>]
 //
 // It parses every non-test .go file of the library directory (go/parser), type-checks the package
-// with go/types (imports are stubbed: only `math` integer limits and fmt.Errorf/Sprintf are known;
+// with go/types (imports are stubbed: only `math` integer limits, math.Ceil and fmt.Errorf/Sprintf are known;
 // type errors elsewhere in the package are ignored, a type error INSIDE a translated declaration
 // is fatal) and transcribes the functions listed in ggSelected (plus their callees) into
 // coq/gen/GoFuncs.v.  proofs/GoFuncs_proofs.v proves each generated definition extensionally equal
@@ -91,6 +91,23 @@ var ggSelected = []ggSel{
 	{"settings.go", "", "setThreshold"},
 	{"settings.go", "", "maxInlineMapValueSize"},
 	{"cbor_tag_nums.go", "", "ReservedCBORTagNumberRange"},
+	// the rebalancing decision predicates of the slab trees (property C05): struct receivers read
+	// through scalar fields only (see gengo_stmt.go, "struct receivers").  Not listed because they are
+	// outside the subset (loops over a slice of interface values / calls through an interface):
+	// ArrayDataSlab.CanLendToLeft/CanLendToRight, MapDataSlab.CanLendToLeft/CanLendToRight
+	// (m.elements.CanLendTo...), every Split/Merge/LendToRight/BorrowFromRight.
+	{"array_data_slab.go", "ArrayDataSlab", "IsFull"},
+	{"array_data_slab.go", "ArrayDataSlab", "IsUnderflow"},
+	{"array_metadata_slab.go", "ArrayMetaDataSlab", "IsFull"},
+	{"array_metadata_slab.go", "ArrayMetaDataSlab", "IsUnderflow"},
+	{"array_metadata_slab.go", "ArrayMetaDataSlab", "CanLendToLeft"},
+	{"array_metadata_slab.go", "ArrayMetaDataSlab", "CanLendToRight"},
+	{"map_data_slab.go", "MapDataSlab", "IsFull"},
+	{"map_data_slab.go", "MapDataSlab", "IsUnderflow"},
+	{"map_metadata_slab.go", "MapMetaDataSlab", "IsFull"},
+	{"map_metadata_slab.go", "MapMetaDataSlab", "IsUnderflow"},
+	{"map_metadata_slab.go", "MapMetaDataSlab", "CanLendToLeft"},
+	{"map_metadata_slab.go", "MapMetaDataSlab", "CanLendToRight"},
 }
 
 // Package-level constants emitted even when no translated function mentions them (the size
@@ -155,6 +172,10 @@ func (im *ggImporter) Import(path string) (*types.Package, error) {
 			add(fmt.Sprintf("MaxInt%d", k), constant.Make(new(big.Int).Sub(pow(k-1), big.NewInt(1))))
 			add(fmt.Sprintf("MinInt%d", k), constant.Make(new(big.Int).Neg(pow(k-1))))
 		}
+		// math.Ceil: accepted by the translator only in  uintN(math.Ceil(float64(u) / c))  (gengo_expr.go)
+		f64 := types.Typ[types.Float64]
+		p.Scope().Insert(types.NewFunc(token.NoPos, p, "Ceil", types.NewSignatureType(nil, nil, nil,
+			types.NewTuple(types.NewVar(token.NoPos, p, "x", f64)), types.NewTuple(types.NewVar(token.NoPos, p, "", f64)), false)))
 	case "fmt":
 		anyT := types.Universe.Lookup("any").Type()
 		errT := types.Universe.Lookup("error").Type()
@@ -239,9 +260,10 @@ func (g *ggGen) load() {
 		},
 	}
 	g.info = &types.Info{
-		Types: map[ast.Expr]types.TypeAndValue{},
-		Defs:  map[*ast.Ident]types.Object{},
-		Uses:  map[*ast.Ident]types.Object{},
+		Types:      map[ast.Expr]types.TypeAndValue{},
+		Defs:       map[*ast.Ident]types.Object{},
+		Uses:       map[*ast.Ident]types.Object{},
+		Selections: map[*ast.SelectorExpr]*types.Selection{},
 	}
 	g.pkg, _ = conf.Check("github.com/onflow/atree", g.fset, files, g.info)
 	if g.pkg == nil {
@@ -404,6 +426,10 @@ func (g *ggGen) render() string {
 		"   unsigned Go integers : N (wrap-around written as explicit `mod 2^width` wherever the operand bounds\n" +
 		"   do not exclude overflow); signed integers (enumeration types) : Z; [2]byte : N * N;\n" +
 		"   a function that can panic / return a non-nil error : option, None = panic or error.\n" +
+		"   a method on a struct (slab) type that only READS scalar fields of its receiver r : one parameter per\n" +
+		"   field path read, r.f.g -> r_f_g (len(r.f) -> len_r_f : Z), in struct declaration order, in the\n" +
+		"   receiver's position (after the package variables g_..., before the Go parameters).\n" +
+		"   uintN(math.Ceil(float64(u) / c)), u < 2^32, c an integer constant : the ceiling division (u + (c - 1)) / c.\n" +
 		"   k_<name> = Go constant <name> (value computed by go/types), g_<name> = package-level variable <name>. *)\n" +
 		"From Coq Require Import NArith ZArith Bool.\nLocal Open Scope N_scope.\n\n")
 	// constants: package constants in source order (file, offset), imported ones first by name
